@@ -446,7 +446,7 @@ func classify(in input) string {
 	}
 	for _, st := range in.Script {
 		for _, v := range st.Top {
-			if v.SSide == v.DSide && v.Size > 0 && v.SAddr < v.DAddr+v.Size && v.DAddr < v.SAddr+v.Size && v.SAddr != v.DAddr {
+			if v.SSide == v.DSide && v.Size > 0 && v.SAddr < v.DAddr+v.Size && v.DAddr < v.SAddr+v.Size {
 				return "same_side_overlapping_ranges"
 			}
 		}
